@@ -67,4 +67,7 @@ PROPS["C01"] = dict(jobs=None, obl=None, bounded="c01", level="other", design="4
 PROPS["C16"] = dict(jobs=None, obl=None, bounded="c16", level="other", design="4 C16",
                     technique="bounded stand-in: histories of 1-3 link/list operations (full alphabet, present/absent/duplicate/no-op arguments) on 4 topologies; after every operation forward links vs every reverse look-up, list content vs python mirror, deletion guard, system exclusivity")
 
+PROPS["C14"] = dict(jobs=None, obl=None, bounded="c14", level="other", design="4 C14",
+                    technique="bounded stand-in, exhaustive over its finite domain: every parameter of every public class x every applicable kind of invalid value x {construction, assignment in a live system}; exception required and whole-model snapshot (values, identities, links) unchanged after a refused assignment")
+
 NOT_BUILT = {}
